@@ -90,7 +90,7 @@ func TestTxSequences(t *testing.T) {
 			if steered {
 				stats.Exclude("F-C12-b")
 			}
-			need := budget(tree, predFailOf(tree, e.m, false))
+			need := budgetTamed(tree, predFailOf(tree, e.m, false))
 			x := &seqTx{tree: tree, gas: satAdd(need, need/4)}
 			x.c = e.install(tree, true, nil)
 			tree.walk(func(n *node) {
@@ -281,7 +281,7 @@ func TestProbeCodeStoreOutOfGasNotReverted(t *testing.T) {
 	root := &node{kind: kCall, steps: []step{{k: sChild, child: child}}, out: oReturn}
 	root.number(0)
 	child.deposit = 1
-	need := budget(root, func(n *node) bool { return n == child })
+	need := budgetTamed(root, func(n *node) bool { return n == child })
 	c := e.install(root, true, nil)
 	r, err := e.exec(root, c, need*2, nil)
 	if err != nil {
